@@ -441,7 +441,8 @@ func Systematic() []sysCase {
 		"same-value", "same-as-original", "multi-removal", "multi-removal-reset",
 		"noop-then-rm", "noop-then-rmset", "noop-reset-then-rmset",
 		"near-original", "near-original-rmset", "near-earlier-rmset",
-		"zero-single", "zero-adjacent", "zero-then-value", "ignored-partial-unified"}
+		"zero-single", "zero-adjacent", "zero-then-value", "ignored-partial-unified",
+		"two-updates-second-ignored", "two-updates-first-ignored", "two-updates-then-taken"}
 	for _, it := range AllItems() {
 		for _, p := range paths {
 			if p.path == "update" && !IsResource(it.Kind) {
@@ -455,7 +456,7 @@ func Systematic() []sysCase {
 					!(p.path == "adjust" && Removable[it.Kind] && it.Kind != "args") {
 					continue
 				}
-				if shape == "ignored" && p.path != "update" {
+				if (shape == "ignored" || strings.HasPrefix(shape, "two-updates-")) && p.path != "update" {
 					continue
 				}
 				if strings.HasPrefix(shape, "noop-") && !(p.path == "adjust" && Removable[it.Kind]) {
@@ -603,6 +604,30 @@ func Systematic() []sysCase {
 						u2 := NewUpdate(p.target, first == 1)
 						SetRes(ensureRes(&u2.Resources), it, a+3, 1)
 						rsp[a+3].Updates = append(rsp[a+3].Updates, u2)
+					case "two-updates-second-ignored":
+						// ONE response with two updates of the same target: the first sets `it`
+						// and stands; the second is marked ignore-failure and collides with an
+						// earlier plugin on another field, so it is dropped - alone. A later
+						// plugin setting `it` still collides with the first update.
+						o := otherItem(it)
+						setOn(&rsp[a], p.path, p.target, o, a, 0, false)
+						setOn(&rsp[a+1], p.path, p.target, it, a+1, 1, false)
+						setOn(&rsp[a+1], p.path, p.target, o, a+1, 2, true)
+						setOn(&rsp[a+3], p.path, p.target, it, a+3, 3, false)
+					case "two-updates-first-ignored":
+						// the dropped update comes first, the standing one second
+						o := otherItem(it)
+						setOn(&rsp[a], p.path, p.target, o, a, 0, false)
+						setOn(&rsp[a+1], p.path, p.target, o, a+1, 2, true)
+						setOn(&rsp[a+1], p.path, p.target, it, a+1, 1, false)
+						setOn(&rsp[a+2], p.path, p.target, it, a+2, 3, false)
+					case "two-updates-then-taken":
+						// no collision on `it`: the second (dropped) update of the response leaves
+						// the first one's value and claim alone, nobody else touches `it`
+						o := otherItem(it)
+						setOn(&rsp[a], p.path, p.target, o, a, 0, false)
+						setOn(&rsp[a+2], p.path, p.target, it, a+2, 1, false)
+						setOn(&rsp[a+2], p.path, p.target, o, a+2, 2, true)
 					case "ignored":
 						setOn(&rsp[a], p.path, p.target, it, a, 0, false)
 						// the later plugin's update conflicts but is marked ignore-failure; it also
